@@ -80,6 +80,11 @@ func DriveTree(r *rec.Rec, rng *rand.Rand, run, ops int, variant string) {
 			cleanIter = cleanIter || f == "cleaniter" // C01: iterators are drained at once, no mutation in between
 		}
 	}
+	sweepRun := -1 // kind "sweep": run r fills monotonically (r%2: up/down) to a size that steps through 100..U, then drains
+	if kind == "sweep" {
+		sweepRun = run
+		kind = []string{"int", "cmp", "set"}[(run/2)%3]
+	}
 	if kind == "mix" {
 		kind = []string{"int", "cmp", "rev", "str", "set", "setcmp"}[run%6]
 	}
@@ -322,6 +327,16 @@ func DriveTree(r *rec.Rec, rng *rand.Rand, run, ops int, variant string) {
 		target = 1
 	}
 	pattern := run % 5
+	// monotone fills of any size up to the universe (3 levels: inner nodes pass through every fill grade, in
+	// particular "exactly full", while their siblings stay minimal), followed at once by a drain from the thin side
+	sweep := pattern <= 1 && nClasses >= 100 && rng.Intn(2) == 0
+	if sweep {
+		target = 100 + rng.Intn(nClasses-101)
+	}
+	if sweepRun >= 0 && nClasses >= 110 {
+		sweep, pattern = true, sweepRun%2
+		target = 100 + ((sweepRun/2)*7+rng.Intn(7))%(nClasses-105)
+	}
 	keyOfClass := func(c int) int {
 		if coarse {
 			return 2*c - rng.Intn(2)
@@ -369,6 +384,10 @@ func DriveTree(r *rec.Rec, rng *rand.Rand, run, ops int, variant string) {
 	}
 	// ---- phase 2: random mix / targeted drains with live iterators
 	drain := 0 // >0: draining from one side
+	sweepDels := 0
+	if sweep {
+		drain = 1 + pattern
+	}
 	for n := 0; n < ops && !dead; n++ {
 		c := rng.Intn(100)
 		switch {
@@ -432,6 +451,11 @@ func DriveTree(r *rec.Rec, rng *rand.Rand, run, ops int, variant string) {
 			}
 			if wantDel {
 				del(k)
+				if sweepRun >= 0 && drain > 0 && drain < 3 {
+					if sweepDels++; sweepDels == 20 {
+						drain = 3 - drain // then from the other side
+					}
+				}
 			} else {
 				put(k)
 			}
